@@ -41,16 +41,49 @@ fn create_session_request() -> SupportedMessage {
     .into()
 }
 
-fn open_request(renew: bool) -> SupportedMessage {
+fn open_request_full(renew: bool, mode: MessageSecurityMode, pv_same: bool, nonce: Option<usize>) -> OpenSecureChannelRequest {
     OpenSecureChannelRequest {
         request_header: RequestHeader::new(&NodeId::null(), &DateTime::null(), 1),
-        client_protocol_version: 0,
+        client_protocol_version: if pv_same { 0 } else { 1 },
         request_type: if renew { SecurityTokenRequestType::Renew } else { SecurityTokenRequestType::Issue },
-        security_mode: MessageSecurityMode::None,
-        client_nonce: ByteString::null(),
+        security_mode: mode,
+        client_nonce: match nonce {
+            None => ByteString::null(),
+            Some(n) => ByteString::from(vec![9u8; n]),
+        },
         requested_lifetime: 60000,
     }
-    .into()
+}
+
+fn open_request(renew: bool) -> SupportedMessage {
+    open_request_full(renew, MessageSecurityMode::None, true, None).into()
+}
+
+/// `o:<i|r>:<mode 0-3>:<s|d>:<nonce length or ->`
+fn parse_open(rk: &str) -> Option<(bool, MessageSecurityMode, bool, Option<usize>)> {
+    let p: Vec<&str> = rk.split(':').collect();
+    if p.len() != 5 || p[0] != "o" {
+        return None;
+    }
+    let renew = match p[1] {
+        "i" => false,
+        "r" => true,
+        _ => return None,
+    };
+    let mode = match p[2] {
+        "0" => MessageSecurityMode::Invalid,
+        "1" => MessageSecurityMode::None,
+        "2" => MessageSecurityMode::Sign,
+        "3" => MessageSecurityMode::SignAndEncrypt,
+        _ => return None,
+    };
+    let pv = match p[3] {
+        "s" => true,
+        "d" => false,
+        _ => return None,
+    };
+    let nonce = if p[4] == "-" { None } else { Some(p[4].parse().ok()?) };
+    Some((renew, mode, pv, nonce))
 }
 
 fn close_request() -> SupportedMessage {
@@ -66,7 +99,18 @@ pub fn request_bytes(rk: &str) -> Option<Vec<u8>> {
         "or" => c11::message_bytes(&open_request(true)).1,
         "cl" => c11::message_bytes(&close_request()).1,
         "junk" => vec![],
-        _ => return None,
+        "obad" => {
+            // request type field (after node id, request header and protocol version) holds no enum value
+            let r = open_request_full(false, MessageSecurityMode::None, true, None);
+            let off = 4 + r.request_header.byte_len() + 4;
+            let mut b = c11::message_bytes(&r.into()).1;
+            b[off..off + 4].copy_from_slice(&7u32.to_le_bytes());
+            b
+        }
+        _ => {
+            let (renew, mode, pv, nonce) = parse_open(rk)?;
+            c11::message_bytes(&open_request_full(renew, mode, pv, nonce).into()).1
+        }
     })
 }
 
@@ -154,6 +198,14 @@ pub fn response_name(m: &SupportedMessage) -> String {
         SupportedMessage::CreateSessionResponse(_) => "service CreateSessionResponse".to_string(),
         SupportedMessage::ServiceFault(f) => format!("service ServiceFault:{}", f.response_header.service_result.name()),
         _ => "service other".to_string(),
+    }
+}
+
+/// an OpenSecureChannel request refused with a ServiceFault is not a response of the service layer
+pub fn response_name_for(m: &SupportedMessage, to_opn_chunk: bool) -> String {
+    match m {
+        SupportedMessage::ServiceFault(f) if to_opn_chunk => format!("fault-opn {}", f.response_header.service_result.name()),
+        m => response_name(m),
     }
 }
 
@@ -245,8 +297,9 @@ impl Conn {
             (_, F::Chunk(c)) => self.t.verif_process_chunk(c),
             (_, _) => (vec![], Err(StatusCode::BadCommunicationError)), // "Received unexpected message"
         };
+        let is_opn = matches!(&meta, Some((ty, _, _, _)) if ty == "opn");
         let names: Vec<String> = responses.iter().map(|(id, m)| {
-            let n = response_name(m);
+            let n = response_name_for(m, is_opn);
             if n == "ack" { n } else { format!("{} req={}", n, id) }
         }).collect();
         let base = match &result {
@@ -290,14 +343,32 @@ pub struct GenState {
     pub opened: bool,
 }
 
-fn pick_rk(rng: &mut Rng, ty: &str) -> &'static str {
+/// an OpenSecureChannelRequest with any request type x security mode x protocol version x nonce shape
+fn pick_open(rng: &mut Rng) -> String {
+    format!(
+        "o:{}:{}:{}:{}",
+        *rng.pick(&["i", "i", "r"]),
+        *rng.pick(&["0", "1", "1", "2", "3"]),
+        *rng.pick(&["s", "s", "s", "d"]),
+        *rng.pick(&["-", "-", "0", "1", "32", "33"])
+    )
+}
+
+fn pick_rk(rng: &mut Rng, ty: &str) -> String {
     if rng.chance(1, 6) {
-        return *rng.pick(&["ge", "cs", "oi", "or", "cl", "junk"]);
+        return match rng.below(8) {
+            0 => pick_open(rng),
+            k => ["ge", "cs", "oi", "or", "cl", "junk", "obad"][(k - 1) as usize].to_string(),
+        };
     }
     match ty {
-        "msg" => *rng.pick(&["ge", "ge", "ge", "cs"]),
-        "opn" => *rng.pick(&["oi", "oi", "or"]),
-        _ => "cl",
+        "msg" => rng.pick(&["ge", "ge", "ge", "cs"]).to_string(),
+        "opn" => match rng.below(5) {
+            0 | 1 => "oi".to_string(),
+            2 => "or".to_string(),
+            _ => pick_open(rng),
+        },
+        _ => "cl".to_string(),
     }
 }
 
@@ -305,15 +376,20 @@ fn rk_len(l: &Lens, rk: &str) -> usize {
     match rk {
         "ge" => l.ge,
         "cs" => l.cs,
-        "oi" | "or" => l.opn,
+        "oi" | "or" | "obad" => l.opn,
         "cl" => l.clo,
-        _ => 0,
+        "junk" => 0,
+        rk => match parse_open(rk) {
+            Some((_, _, _, nonce)) => l.opn + nonce.unwrap_or(0),
+            None => 0,
+        },
     }
 }
 
 /// one message of `n` chunks; returns the op lines
 pub fn gen_message(rng: &mut Rng, l: &Lens, st: &mut GenState, profile: Profile, mc: u64, mm: u64, main_ty: &str, n: u64) -> Vec<String> {
-    let rk = pick_rk(rng, main_ty);
+    let rk_s = pick_rk(rng, main_ty);
+    let rk = rk_s.as_str();
     let req = 10 + rng.below(90);
     let mut out = Vec::new();
     let need = rk_len(l, rk) as u64;
@@ -365,7 +441,8 @@ pub fn gen_message(rng: &mut Rng, l: &Lens, st: &mut GenState, profile: Profile,
         };
         out.push(format!("ch {} {}:{}:{} {} {} {} {}", ty, c, s, req, f, size, rk, mal));
         st.seq = (st.seq + 1).min(u32::MAX as u64);
-        if ty == "opn" && f == "F" && (rk == "oi") && mal == "ok" {
+        let issue_ok = rk == "oi" || (rk.starts_with("o:i:") && !rk.starts_with("o:i:0") && rk.contains(":s:"));
+        if ty == "opn" && f == "F" && issue_ok && mal == "ok" {
             st.chan = if st.opened { st.chan + 1 } else { 1 };
             st.opened = true;
         }
@@ -460,7 +537,7 @@ fn preamble(l: &Lens, state: &str, out: &mut Vec<String>) -> (u64, u64) {
 
 pub fn gen_systematic(l: &Lens, out: &mut Vec<String>) {
     let tys = ["msg", "opn", "clo"];
-    let rks = ["ge", "cs", "oi", "or", "cl", "junk"];
+    let rks = ["ge", "cs", "oi", "or", "cl", "junk", "obad", "o:i:0:s:-", "o:r:2:d:1"];
     let len_of = |rk: &str| rk_len(l, rk) as u64;
     let ov = |ty: &str| overhead(l, ty) as u64;
     // (1) one chunk of every type x flag x malformation in every handshake state, empty and non-empty buffer
@@ -547,6 +624,51 @@ pub fn gen_systematic(l: &Lens, out: &mut Vec<String>) {
     let (chan, seq) = preamble(l, "open", out);
     for i in 0..7 {
         out.push(format!("ch msg {}:{}:{} F {} cs ok", chan, seq + i, 20 + i, 24 + len_of("cs")));
+    }
+    // (5b) EVERY exit of `open_secure_channel`: request type x security mode (incl. Invalid) x protocol version same /
+    //      different x nonce shape, on a connection without and with an issued channel and after a refused Issue, each
+    //      followed by MSG traffic on the channel id the client would assume, then by a proper Issue and a MSG
+    for state in ["hel", "refused", "open"] {
+        for t in ["i", "r"] {
+            for m in ["0", "1", "2", "3"] {
+                for pv in ["s", "d"] {
+                    for nonce in ["-", "0", "1", "32"] {
+                        if nonce != "-" && !(m == "1" || m == "0") {
+                            continue;
+                        }
+                        let rk = format!("o:{}:{}:{}:{}", t, m, pv, nonce);
+                        out.push(reset_line(0, 0));
+                        out.push("hel valid".to_string());
+                        let mut seq = 1u64;
+                        let mut chan = 0u64;
+                        if state == "refused" {
+                            out.push(format!("ch opn 0:{}:1 F {} o:i:0:s:- ok", seq, l.ov_opn as u64 + len_of("oi")));
+                            seq += 1;
+                        }
+                        if state == "open" {
+                            out.push(format!("ch opn 0:{}:1 F {} oi ok", seq, l.ov_opn as u64 + len_of("oi")));
+                            seq += 1;
+                            chan = 1;
+                        }
+                        out.push(format!("ch opn {}:{}:2 F {} {} ok", chan, seq, l.ov_opn as u64 + rk_len(l, &rk) as u64, rk));
+                        seq += 1;
+                        // what a client that believes the OPN went through would send next
+                        for c in [chan, chan + 1, 1, 2] {
+                            out.push(format!("ch msg {}:{}:3 F {} ge ok", c, seq, 24 + len_of("ge")));
+                            seq += 1;
+                        }
+                        out.push(format!("ch opn {}:{}:4 F {} oi ok", chan, seq, l.ov_opn as u64 + len_of("oi")));
+                        out.push(format!("ch msg {}:{}:5 F {} ge ok", chan + 1, seq + 1, 24 + len_of("ge")));
+                    }
+                }
+            }
+        }
+    }
+    for state in ["hel", "open"] {
+        out.push(reset_line(0, 0));
+        let (chan, seq) = preamble(l, state, out);
+        out.push(format!("ch opn {}:{}:2 F {} obad ok", chan, seq, l.ov_opn as u64 + len_of("oi")));
+        out.push(format!("ch msg {}:{}:3 F {} ge ok", chan, seq + 1, 24 + len_of("ge")));
     }
     // (6) sequence / channel / request id checks on a final chunk; frames that are not chunks
     for (c, s, what) in [(1u64, 2u64, "next"), (1, 5, "gap"), (1, 1, "stale"), (1, 0, "zero"), (2, 2, "chan"), (0, 2, "chan0")] {
